@@ -15,7 +15,7 @@ func init() {
 	core.Register(&core.Prop{
 		ID:    "C10",
 		Level: "exploration",
-		Rule: "EXHAUSTIVE: every plain universe value (canonical and in 3 PRNG-chosen Go realisations incl. Drops/typed/pointer) as the condition of every branch position of if/elsif chains with 1..6 branches (all other conditions fixed false before / poisoned after), the same for unless, and as case subject x when-list (single, first of two, second of two, absent with else, absent without else) over all ordered universe pairs; duality if/else == unless/else for generated conditions; PRNG programs of nested conditionals mixed with loops against the reference model. Non-trivial = the selected branch is not the first one or the value is not a boolean literal; distinct = distinct (template, bindings descriptor).",
+		Rule: "EXHAUSTIVE: every plain universe value (canonical and in 3 PRNG-chosen Go realisations incl. Drops/typed/pointer) as the condition of every branch position of if/elsif chains with 1..6 branches (all other conditions fixed false before / poisoned after), the same for unless, and as case subject x when-list (single, first of two, second of two, absent with else, absent without else) over all ordered universe pairs; duality if/else == unless/else for generated conditions; every Go universe value as operand of and/or with a constant must select the branch it selects as a bare condition; PRNG programs of nested conditionals mixed with loops against the reference model. Non-trivial = the selected branch is not the first one or the value is not a boolean literal; distinct = distinct (template, bindings descriptor).",
 		Exhaustive: func(string) bool { return true },
 		Assumptions: []string{
 			"branches after the selected one carry poison conditions (division by zero, unknown-filter is a parse-time error so only runtime poisons are used) which must not be evaluated",
@@ -230,6 +230,29 @@ func runC10(c *core.Ctx) {
 			c.Distinct("dualu", u.Name, form[0])
 			if !r1.Same(r2) || r1.Panic != "" {
 				c.Violate("duality-universe|"+kindOf(u), "if/else and unless/else disagree for a binding value", map[string]any{"value": gen.Describe(uu[ui].Go), "if": form[0] + " => " + r1.Brief(), "unless": form[1] + " => " + r2.Brief()})
+			}
+		}
+	}
+	// --- a condition built with and/or from one operand and a constant is truthy exactly when the operand is ----
+	// (every Go value of the universe: ordered maps, nil slices, pointers, Drops, structs, ...)
+	logic := []string{"v and tr", "tr and v", "v or fa", "fa or v", "nothing or v", "v and v", "v or v", "v and tr and v", "fa or nothing or v"}
+	for ui, u := range gen.PlainDataUniverse() {
+		idx++
+		if !c.Mine(idx) || !c.Begin("logic-universe:"+u.Name) {
+			continue
+		}
+		base := core.Run(e, "{% if v %}A{% else %}B{% endif %}", map[string]any{"v": gen.PlainDataUniverse()[ui].Go})
+		for _, l := range logic {
+			for _, form := range []string{"{% if " + l + " %}A{% else %}B{% endif %}", "{% unless " + l + " %}B{% else %}A{% endunless %}", "{% if fa %}X{% elsif " + l + " %}A{% else %}B{% endif %}"} {
+				uu := gen.PlainDataUniverse()
+				r1 := core.Run(e, form, map[string]any{"v": uu[ui].Go, "tr": true, "fa": false})
+				c.Eval(1)
+				c.Obs("logic_universe_cases", 1)
+				c.Distinct("logicu", u.Name, form)
+				if !r1.Same(base) || r1.Panic != "" {
+					c.Violate("logic-universe|"+kindOf(u), "a value is truthy as a bare condition but not as an operand of and/or (or the reverse): the wrong branch is rendered",
+						map[string]any{"value": gen.Describe(uu[ui].Go), "bare": "{% if v %}A{% else %}B{% endif %} => " + base.Brief(), "compound": form + " => " + r1.Brief()})
+				}
 			}
 		}
 	}
